@@ -232,7 +232,9 @@ theorem patternLoop_text_step (s : Src) (n : Nat) (st : PatState) (p stop q : Na
         { elements := st.elements ++ [.text p stop 0 st.role],
           lastNonBlank := if nb && (trimEnd s ⟨p, stop⟩).stop != p then some st.elements.length else st.lastNonBlank,
           commonIndent := st.commonIndent,
-          role := roleOf term } q := by
+          role := roleOf term,
+          keptCommonIndent := if nb && (trimEnd s ⟨p, stop⟩).stop != p then st.commonIndent
+            else st.keptCommonIndent } q := by
   rw [getPatternLoop]
   have h1 : isCurrentByte s p 123 = false := by simp [isCurrentByte, h123]
   have h2 : (p != stop) = true := by simp; omega
@@ -248,7 +250,7 @@ theorem patternLoop_placeable_step (s : Src) (n : Nat) (st : PatState) (p : Nat)
     getPatternLoop s (n + 1) st p =
       getPatternLoop s n
         { elements := st.elements ++ [.placeable ex], lastNonBlank := some st.elements.length,
-          commonIndent := st.commonIndent, role := .continuation } q := by
+          commonIndent := st.commonIndent, role := .continuation, keptCommonIndent := st.commonIndent } q := by
   rw [getPatternLoop]
   have h1 : isCurrentByte s p 123 = true := by simp [isCurrentByte, h123]
   simp only [get_lt h123, if_true, h1, hrole, Bool.false_eq_true, if_false, hpl]
@@ -437,24 +439,25 @@ theorem getLast_any_ne32 (v : Bytes) (c : UInt8) (h : v.getLast? = some c) (hc :
 
 theorem patternLoop_elems {s : Src} (hs : AsciiThenBoundary s) (es : List (PatElem Bytes))
     (hv : ∀ e ∈ es, validElem e = true) (hadj : noAdjText es = true) (hlast : lastOK es = true) :
-    ∀ (n p : Nat) (st : PatState), (st.role == .lineStart) = false → st.commonIndent = none → Bnd s p →
+    ∀ (n p : Nat) (st : PatState), (st.role == .lineStart) = false → st.commonIndent = none →
+      st.keptCommonIndent = none → Bnd s p →
       At s p (patBytes es ++ [10]) → LineEndOK s (p + (patBytes es).length + 1) → fuelPat es ≤ n →
       ∃ phs tr, getPatternLoop s n st p =
           .ok ⟨st.elements ++ phs ++ tr,
                (if es.isEmpty then st.lastNonBlank else some (st.elements.length + es.length - 1)),
-               none, .lineStart⟩ (p + (patBytes es).length + 1) ∧ PhsRel s phs es := by
+               none, .lineStart, none⟩ (p + (patBytes es).length + 1) ∧ PhsRel s phs es := by
   induction es with
   | nil =>
-    intro n p st hrole hci hb h hend hn
+    intro n p st hrole hci hk hb h hend hn
     obtain ⟨m, rfl⟩ : ∃ m, n = m + 2 := ⟨n - 2, by simp [fuelPat] at hn; omega⟩
     simp only [patBytes, List.nil_append, at_cons, List.length_nil, Nat.add_zero] at h hend ⊢
     have hts := getTextSlice_nl s p h.1
     have hsl : slice s p (p + 1) = some ⟨p, p + 1⟩ := slice_ok (by omega) hb (bnd_succ hs h.1 (by decide))
     rw [patternLoop_text_step s (m + 1) st p (p + 1) (p + 1) false .lineFeed (get_lt h.1) (by rw [h.1]; decide)
       hrole hts (by omega) hsl, patternLoop_end s m _ (p + 1) rfl hend]
-    exact ⟨[], [.text p (p + 1) 0 st.role], by simp [hci, roleOf], trivial⟩
+    exact ⟨[], [.text p (p + 1) 0 st.role], by simp [hci, hk, roleOf], trivial⟩
   | cons e es ih =>
-    intro n p st hrole hci hb h hend hn
+    intro n p st hrole hci hk hb h hend hn
     obtain ⟨m, rfl⟩ : ∃ m, n = m + 1 := ⟨n - 1, by simp [fuelPat] at hn; omega⟩
     have hvt : ∀ e ∈ es, validElem e = true := fun x hx => hv x (List.mem_cons_of_mem _ hx)
     have ih' := ih hvt (noAdjText_tail hadj) (lastOK_tail hlast)
@@ -476,7 +479,8 @@ theorem patternLoop_elems {s : Src} (hs : AsciiThenBoundary s) (es : List (PatEl
         rw [hpre]; simpa [Nat.add_assoc] using this
       rw [patternLoop_placeable_step s m st p ex _ h123 hrole hpl]
       obtain ⟨phs, tr, hloop, hrel⟩ := ih' m _
-        ⟨st.elements ++ [.placeable ex], some st.elements.length, st.commonIndent, .continuation⟩ rfl hci hbq h'.2
+        ⟨st.elements ++ [.placeable ex], some st.elements.length, st.commonIndent, .continuation, st.commonIndent⟩
+        rfl hci hci hbq h'.2
         (by simp only [patBytes, List.length_append] at hend; rw [← Nat.add_assoc] at hend; exact hend)
         (by simp [fuelPat] at hn; omega)
       refine ⟨.placeable ex :: phs, tr, ?_, ⟨hmx, hrel⟩⟩
@@ -530,7 +534,7 @@ theorem patternLoop_elems {s : Src} (hs : AsciiThenBoundary s) (es : List (PatEl
         have htrim := trimEnd_lf s p (p + v.length) c (by omega) h10 hsc hc32 hcm.2.1 hcm.1
         refine ⟨[.text p (p + v.length + 1) 0 st.role], [], ?_, ?_⟩
         · simp only [htrim, getLast_any_ne32 v c hc hc32, Bool.true_and, patBytes, elemBytes, List.append_nil,
-            List.length_cons, List.length_nil, List.isEmpty_cons, hci, roleOf]
+            List.length_cons, List.length_nil, List.isEmpty_cons, hci, hk, roleOf]
           have : (p + v.length != p) = true := by simp; omega
           simp [this]
         · refine ⟨⟨rfl, hrole, hb, hb2, hatv, hvv, ?_⟩, trivial⟩
@@ -544,8 +548,10 @@ theorem patternLoop_elems {s : Src} (hs : AsciiThenBoundary s) (es : List (PatEl
         obtain ⟨phs, tr, hloop, hrel⟩ := ih' m _
           ⟨st.elements ++ [.text p (p + v.length) 0 st.role],
            (if (v.any (fun b => b != 32) && (trimEnd s ⟨p, p + v.length⟩).stop != p) = true
-             then some st.elements.length else st.lastNonBlank), st.commonIndent, roleOf .placeableStart⟩
-          rfl hci hb2 hrest
+             then some st.elements.length else st.lastNonBlank), st.commonIndent, roleOf .placeableStart,
+           (if (v.any (fun b => b != 32) && (trimEnd s ⟨p, p + v.length⟩).stop != p) = true
+             then st.commonIndent else st.keptCommonIndent)⟩
+          rfl hci (by simp only []; split <;> assumption) hb2 hrest
           (by simp only [patBytes, elemBytes, List.length_append] at hend; rw [← Nat.add_assoc] at hend; exact hend)
           (by simp [fuelPat, fuelElem] at hn; omega)
         refine ⟨.text p (p + v.length) 0 st.role :: phs, tr, ?_, ⟨⟨rfl, hrole, hb, hb2, hatv, hvv, ?_⟩, hrel⟩⟩
@@ -701,7 +707,7 @@ theorem getPattern_singleline {s : Src} (hs : AsciiThenBoundary s) (es : List (P
     rw [hb0]
     split <;> simp_all
   obtain ⟨phs, tr, hloop, hrel⟩ := patternLoop_elems hs es hve hadj hlast m (p + 1)
-    ⟨[], none, none, .initialLineStart⟩ rfl rfl (bnd_succ hs h0 (by decide)) h1 hend (by omega)
+    ⟨[], none, none, .initialLineStart, none⟩ rfl rfl rfl (bnd_succ hs h0 (by decide)) h1 hend (by omega)
   obtain ⟨els, hfin, hmap⟩ := finishElements_rel s es hne phs tr 0 hrel
   refine ⟨els, ?_, hmap⟩
   rw [getPattern]
